@@ -161,7 +161,7 @@ def run(prop, tier, seed, t0):
                   ((0, 1, 2, 3, 7, 16), 2), ((5, 33), 1)]
     else:
         groups = [((0, 1, 2, 3, 7), 20)] * 8 + [((64,), 4), ((94,), 4), ((95,), 4), ((96,), 4), ((249,), 2), ((250,), 2),
-                                                 ((399,), 2), ((400,), 2), ((93, 97), 2), ((120, 300), 1), ((16, 33, 50), 6)] * 2
+                                                 ((399,), 2), ((400,), 2), ((93, 97), 2), ((120, 300), 1), ((16, 33, 50), 6)] * 6
     for i, (sz, reps) in enumerate(groups):
         tasks.append(('vlib.props.c13', 'task', prop, seed * 1000 + i, 0, cb, {'sizes': sz, 'reps': reps}))
     m = core.run_tasks(tasks)
